@@ -539,7 +539,10 @@ func runH3(r *hk.Run, rng *hk.Rand) {
 		success := o.CallErr == "" && o.ReadErr == ""
 		rereadOracle(r, "h3", sig, success, o.DLen, o.Reread, in, o)
 		headers := !g.noHeaders && g.hdrCut == 0
-		consistent := headers && g.complete && (g.cl < 0 || g.cl == len(g.sent))
+		// a declared length that is met exactly, whole frames, FIN between two frames: nothing is
+		// missing, whatever else the generator had meant to send (e.g. content-length 0 and no DATA)
+		declaredMet := g.cl >= 0 && g.cl == len(g.sent) && g.end == "fin" && g.atBoundary && g.shape != "data-after-trailers"
+		consistent := headers && (g.complete || declaredMet) && (g.cl < 0 || g.cl == len(g.sent))
 		// the honest limit: without a declared length the FIN is the only end marker, so a FIN
 		// between two frames cannot be told from the end of the message
 		undetectable := headers && (g.cl < 0 || g.allDeclared) && g.end == "fin" && g.atBoundary && g.shape != "data-after-trailers"
